@@ -85,3 +85,27 @@ reg("C03", level="proof", engine="E-TAB", technique=TECH_L0, design_ref="DESIGN.
                "prereleases of one tuple.",
     trusted_base=TB_COMMON + ["lemma: the prereleases of one major.minor.patch form a convex segment of the order"],
     assumptions=["C04", "C02 (an alternative is the intersection of its comparators)", "C07 provenance of surviving bounds"])
+
+reg("C14", level="proof", engine="E-TAB", technique=TECH_TAB + " (slices of bounded length, per-element satisfies bit)",
+    design_ref="DESIGN.md §5 C14",
+    explanation="max_satisfying / min_satisfying are interpreted from MIR (iterator adaptors modelled as documented) on slices "
+                "of length 0..3 (thorough 0..4) x every weak ordering of the elements x every pattern of satisfies answers; "
+                "the result must be None iff nothing satisfies, else a reference into the slice to a satisfying element that "
+                "is extreme among the satisfying ones.",
+    level_text="Proof over a finite abstraction for slices up to the stated length (the functions treat elements uniformly); "
+               "never selecting an unadmitted prerelease follows because the only filter is Range::satisfies (C03).",
+    level_note="Trusted: rustc MIR, interpreter, models of slice::iter / Iterator::filter / max / min, C04. Bounded by slice length.",
+    trusted_base=TB_COMMON + ["std: Iterator::filter/max/min semantics (max returns the last maximum, min the first minimum)"],
+    assumptions=["C04", "slice length <= 3 (quick) / 4 (thorough)"])
+
+reg("C18", level="proof", engine="E-TAB", technique="abstract interpretation of rustc MIR with opaque integer tokens: field "
+    "wiring of every From<tuple> impl, sibling agreement across integer types, Display template order, parser closure wiring",
+    design_ref="DESIGN.md §5 C18",
+    explanation="All 20 From<(T,T,T)> / From<(T,T,T,T)> impls are found by type and interpreted with opaque non-negative "
+                "integer tokens: each must build Version{major<-.0, minor<-.1, patch<-.2, build: [], pre_release: [] or "
+                "[Numeric(.3)]} through value-preserving casts only; Display for Version is interpreted on token versions and "
+                "must print {major}.{minor}.{patch}[-pre][+build]; the parser's closures must wire the same fields.",
+    level_text="Proof over a finite abstraction: the conversions are straight-line code; the token analysis shows which slot "
+               "reaches which field and that nothing but widening / same-width casts is applied.",
+    level_note="Trusted: rustc MIR, interpreter/models; an int-to-u64 `as` cast preserves every non-negative value that fits.",
+    trusted_base=TB_COMMON, assumptions=["inputs are non-negative and within MAX_SAFE_INTEGER (the property's domain)"])
